@@ -88,7 +88,8 @@ def extra(binary, build, tier, rng):
         # do it the other way round: the property only fixes the weights).  Found by varying one word at a time.
         base = (0x0123456789ABCDEF, 0x0FEDCBA987654321 & ((1 << L2) - 1))
         pr = Prober(binary, lambda pair: "f01 w=%d via=%s n=1 words=%d,%d" % (w, via, pair[0], pair[1]), fields)
-        v1 = {pr.one((x, base[1])) for x in (1, 1 << 20, 1 << 40, 1 << 62, B - 1, base[0])}
+        # (shallow binades only: whether the mantissa is independent of the binade word in the DEEP binades is what the counts below examine)
+        v1 = {pr.one((x, base[1])) for x in (1 << 59, 1 << 60, 1 << 61, 1 << 62, B - 1, base[0])}
         v2 = {pr.one((base[0], x)) for x in (1, 1 << 10, 1 << 20, (1 << L2) - 1, 1 << (L2 - 2), base[1])}
         calls += pr.calls
         if None in v1 or None in v2:
@@ -140,7 +141,8 @@ def extra(binary, build, tier, rng):
                            "oracle": "Float01 (w=%d via=%s): binade [2^-%d, 2^-%d) receives %d of the 2^%d words that decide the binade, not 2^%d = %d" % (w, via, k + 1, k, cnt.get(k, 0), Lb, Lb - 1 - k, 1 << (Lb - 1 - k))}
                     break
         # mantissa: a fixed binade word, the mantissa field as a function of the other word
-        for w1 in (0, 1 << (Lb - 1), rng.bits(Lb)):
+        # (deep binades too: a sampler that shifts the significand instead of replacing the exponent loses mantissa bits only there)
+        for w1 in [0, 1 << (Lb - 1), rng.bits(Lb)] + [((1 << (Lb - 1 - lz)) | rng.bits(Lb - 1 - lz)) if lz < Lb - 1 else 1 for lz in (8, 24, 32, 40, 41, 45, 52, 60, 63) if lz < Lb]:
             mk = lambda x, w1=w1: "f01 w=%d via=%s n=1 words=%d,%d" % ((w, via) + pair(w1, x))
             p = Prober(binary, mk, lambda res: (fields(res) or (None, None))[1])
             r = 1 << mb
